@@ -330,11 +330,23 @@ static Opts random_solve_opts(Rng& rng, int nr_exp)
     return o;
 }
 
+// known finding F10: the documented diverging V(1,1) configuration class, everything else at its command-line default
+static Opts f10_opts()
+{
+    Opts o;
+    o.set("verbose", 0); o.set("geometry", 1); o.set("kappa_eps", 0.3); o.set("delta_e", 0.2); o.set("alpha_coeff", 2); o.set("R0", 0.1);
+    o.set("DirBC_Interior", 1); o.set("nr_exp", 6); o.set("extrapolation", 0); o.set("multigridCycle", 0); o.set("FMG", 0); o.set("FMG_iterations", 2); o.set("FMG_cycle", 0);
+    o.set("preSmoothingSteps", 1); o.set("postSmoothingSteps", 1); o.set("maxLevels", -1); o.set("residualNormType", 0); o.set("maxIterations", 150);
+    o.set("absoluteTolerance", 1e-8); o.set("relativeTolerance", 1e-8); o.set("problem", 0); o.set("beta_coeff", 0); o.set("alpha_jump", 0.7081 * 1.3);
+    o.set("stencilDistributionMethod", 1); o.set("cacheDensityProfileCoefficients", 1); o.set("cacheDomainGeometry", 1); o.set("maxOpenMPThreads", 4);
+    return o;
+}
+
 static int mode_solve(int cases, int nr_exp)
 {
     Rng rng(seed_from_env());
     for (int c = 0; c < cases; c++) {
-        Opts o = random_solve_opts(rng, nr_exp);
+        Opts o = cases == 1 && nr_exp == -10 ? f10_opts() : random_solve_opts(rng, nr_exp);
         if (o.kv["absoluteTolerance"] == "-1" && o.kv["relativeTolerance"] == "-1") o.set("maxIterations", 3);
         GMGPolar g;
         o.apply(g);
